@@ -312,7 +312,7 @@ def r6(run, ctx):
     f = ctx.fn(W + 'kill_process')
     n = len([1 for s in ctx.sites(f) if s.kind == 'call' and any(
         t.key in (W + 'send_signal', W + 'send_signal_process') for t in s.targets)])
-    run.count('R6', n, 3, 'signal send sites in kill_process')
+    run.count('R6', n, 2, 'signal send sites in kill_process')
 
 
 def r7(run, ctx):
@@ -339,7 +339,7 @@ def r7(run, ctx):
                         if isinstance(d, ast.Dict):
                             keys.setdefault(t, set()).update(
                                 astq.const_value(k) for k in d.keys if k is not None)
-    run.count('R7', len(emitted), 8, 'event topics emitted')
+    run.count('R7', len(emitted), 5, 'event topics emitted')
     consumers = ['circus.stats.streamer:StatsStreamer.handle_recv',
                  'circus.plugins.watchdog:WatchDog.handle_recv',
                  'circus.plugins.flapping:Flapping.handle_recv']
